@@ -351,6 +351,18 @@ def gen_trees(ctx, count, maxnodes=25, names=None, need_file=False):
     return trees
 
 
+def sorted_preorder(nodes):
+    """re-sort the depth-1 subtrees of a pre-order node list by the name of their first node (directory order of an image)"""
+    groups = []
+    for n in nodes:
+        if n[0] == 1:
+            groups.append([n])
+        else:
+            groups[-1].append(n)
+    groups.sort(key=lambda g: g[0][7])
+    return [n for g in groups for n in g]
+
+
 def tree_line(which, root, tree):
     return "dtree %s %s %d %s" % (which, "NONE" if root is None else tok(root), len(tree),
                                    " ".join("%d %s %s" % (t[0], node_spec(*t[1:7]), tok(t[7])) for t in tree))
@@ -696,15 +708,37 @@ def check_tools(ctx, pair, stats):
     roots = [None, b"out", b"un pack", b"a\\b", b"q\"r", b"t\tu", None, b"x/y z"]
     res = {"ok": 0, "skip": 0, "fail": 0}
     ops_m, runs = [], []
+    jobs = []
+    # the D13 witnesses (corpus) one by one, each below a root with default attributes so that nothing else fails first
+    cdir = vlib.CORPUS / "C16"
+    nwit = 0
+    if cdir.exists():
+        for p in sorted(cdir.glob("*.cases.json")):
+            for d in json.loads(p.read_text()):
+                c = Case.from_dict(d)
+                if not c.comps or not all(valid_name(x) for x in c.comps):
+                    continue
+                t = [(0, "dir", 0o755, 0, 0, 0, b"", b"")]
+                for depth, nm in enumerate(c.comps[:-1]):
+                    t.append((depth + 1, "dir", 0o755, 0, 0, 0, b"", nm))
+                t.append((len(c.comps), c.kind, c.perm, c.uid, c.gid, c.devno, c.target, c.comps[-1]))
+                if not any(x[1] == "file" for x in t):
+                    t.append((1, "file", 0o644, 0, 0, 0, b"", b"~file"))     # sorts after every generated name's first byte ≤ '~'
+                    t = [t[0]] + sorted_preorder(t[1:])
+                jobs.append((t, c.root)); nwit += 1
     for i, t in enumerate(trees):
-        root = roots[i % len(roots)]
-        # symlink perms are always 0777 in an image; the root's perm/owner come from the `dir /` line
-        t = [tuple(x) for x in t]
+        jobs.append(([tuple(x) for x in t], roots[i % len(roots)]))
+    prepared = []
+    for i, (t, root) in enumerate(jobs):
         files = {}
         for comps, nd in tree_nodes(t):
             if nd[1] == "file":
                 files[b"/".join(comps)] = bytes(ctx.rng.randint(0, 255) for _ in range(ctx.rng.choice([0, 1, 17, 300, 5000])))
-        st, detail, listing = tool_roundtrip(ctx, (gen, rd), t, root, files, wd, i)
+        prepared.append((t, root, files, i))
+    from concurrent.futures import ThreadPoolExecutor
+    with ThreadPoolExecutor(max_workers=min(6, vlib.NCPU)) as ex:
+        results = list(ex.map(lambda a: tool_roundtrip(ctx, (gen, rd), a[0], a[1], a[2], wd, a[3]), prepared))
+    for (t, root, files, i), (st, detail, listing) in zip(prepared, results):
         res[st] += 1
         runs.append((t, root, st, detail, listing))
         ops_m += [tree_line("new", root, t), tree_line("old", root, t)]
@@ -733,8 +767,9 @@ def check_tools(ctx, pair, stats):
             key = "D13:" + cause if cause else "tool:" + vlib.sha(rep["tree"])[:16]
             capped(ctx, caps, key if cause else "tool", key, "tool-level round trip failed (class %s): %s" % (cause or "unexpected", detail[:600]),
                    dict(rep, cls=cause), True, limit=2 if cause else 5)
-    stats.update({"tool_trees": len(trees), "tool_results": res})
-    pair.evals += len(trees)
+    stats.update({"tool_trees": len(jobs), "tool_witness_trees": nwit, "tool_results": res,
+                  "tool_skipped": [r[3][:160] for r in runs if r[2] == "skip"][:5]})
+    pair.evals += len(jobs)
 
 
 # --------------------------------------------------------------------------------------------------------------
@@ -800,14 +835,16 @@ def replay(ctx, path):
         print("impl   :", impl, "crash:", crash)
         print("model  : new=%s old=%s" % (model[0], model[1]))
         print("expect :", model[2])
+        matches = bool(impl) and norm_err(impl[0]) in (norm_err(model[0]), norm_err(model[1]))
+        print("printer matches a model:", matches)
         if crash or not impl or not impl[0].startswith("ok "):
-            return 1 if crash else 0
+            return 1 if (crash or not matches) else 0
         print("line   : %r" % untok(impl[0][3:]))
         dec, crash2 = pair.impl(["parse 1 0 1 0 " + impl[0][3:]])
         print("decoded:", dec, "crash:", crash2)
         bad = crash2 or dec[0] != model[2]
         print("round trip", "FAILS" if bad else "holds")
-        return 1 if bad else 0
+        return 1 if (bad or not matches) else 0
     if "tree" in rp and "listing" in rp:
         # tool-level: re-run the whole pipeline on the recorded tree
         parts = rp["tree"].split(" ")
